@@ -38,7 +38,7 @@ def load_known():
     return json.load(open(path)).get("findings", [])
 
 
-SCRIPTS = {"hist": "histfam.py", "defn": "defnfam.py", "ctx": "ctxfam.py", "bind": "bindfam.py", "inv": "invfam.py", "call": "callfam.py"}
+SCRIPTS = {"expr": "exprfam.py", "hist": "histfam.py", "defn": "defnfam.py", "ctx": "ctxfam.py", "bind": "bindfam.py", "inv": "invfam.py", "call": "callfam.py"}
 
 
 def run_replay(prop, hints, out_path, unit=None):
@@ -53,13 +53,18 @@ def run_replay(prop, hints, out_path, unit=None):
         fams.append("defn")
     if unit in P.INV_UNITS:
         fams.append("inv")
+    if unit in getattr(P, "EXPR_UNITS", ()):
+        fams.append("expr")
     for f in (pf, "call"):
         if f not in fams:
             fams.append(f)
     env = dict(os.environ, PYTHONPATH=REPO)
     last = None
+    exclude = "|".join(sorted({k["tag"] for k in load_known() if k.get("tag")}))
     for fam in fams[:3]:
         cmd = ["/venv/bin/python", os.path.join(HERE, "replay", SCRIPTS[fam]), "--search", "--hints", ",".join(hints), "--out", out_path]
+        if SCRIPTS[fam] in ("exprfam.py", "defnfam.py"):
+            cmd += ["--exclude", exclude]
         try:
             subprocess.run(cmd, env=env, cwd=os.path.join(HERE, "replay"), capture_output=True, text=True, timeout=300)
             last = json.load(open(out_path))
@@ -98,10 +103,10 @@ def main(argv):
     for uname in cfg["units"]:
         spec = P.U[uname]
         rep = verify_unit(spec, REG, fuel=3, prop=prop)
+        rep.uname = uname
         units.append(rep)
         if rep.error:
             undecided.append("%s: %s" % (uname, rep.error))
-            continue
         for o, r in zip(rep.obligations, rep.results):
             tags = o.meta.get("props")
             if tags and prop not in tags:
@@ -136,6 +141,7 @@ def main(argv):
 
     # -- classify what failed ---------------------------------------------------------------------------------
     known = [k for k in load_known() if k.get("property") == prop and not k.get("fixed")]
+    known_obl = [k for k in known if k.get("obligation")]
     groups = {}
     for rep, o, r in failing:
         groups.setdefault(norm(o.name), []).append((rep, o, r))
@@ -144,13 +150,13 @@ def main(argv):
     unknown_only = []
     replay_cache = {}
     for gname, items in sorted(groups.items()):
-        k = next((k for k in known if re.search(k["obligation"], gname)), None)
+        k = next((k for k in known_obl if re.search(k["obligation"], gname)), None)
         if k is not None:
             known_hits.append((k, gname))
             continue
         statuses = {r["status"] for _, _, r in items}
         hints = next((h for pat, h in P.REPLAY_HINTS if pat in gname), []) + cfg.get("hints", [])
-        uname = items[0][0].spec.name()
+        uname = getattr(items[0][0], "uname", items[0][0].spec.name())
         key = tuple(hints) + (uname in P.INV_UNITS, uname in P.DEFN_UNITS, uname in P.META_UNITS)
         if key not in replay_cache:
             h = hashlib.sha256((prop + gname).encode()).hexdigest()[:10]
@@ -180,7 +186,8 @@ def main(argv):
         outp = os.path.join(HERE, "replays", "%s-bounded-%s.json" % (prop, hashlib.sha256(b["unit"].encode()).hexdigest()[:8]))
         env = dict(os.environ, PYTHONPATH=REPO)
         try:
-            subprocess.run(["/venv/bin/python", os.path.join(HERE, "replay", b["script"]), "--search", "--out", outp], env=env,
+            excl = "|".join(sorted({k["tag"] for k in load_known() if k.get("tag")}))
+            subprocess.run(["/venv/bin/python", os.path.join(HERE, "replay", b["script"]), "--search", "--out", outp] + (["--exclude", excl] if b["script"] in ("exprfam.py", "defnfam.py") else []), env=env,
                            cwd=os.path.join(HERE, "replay"), capture_output=True, text=True, timeout=600)
             r = json.load(open(outp))
         except Exception as e:
@@ -194,6 +201,19 @@ def main(argv):
                    "replay": r, "program": r.get("program"), "how_to_replay": "PYTHONPATH=%s /venv/bin/python %s/replay/%s --scenario <this file>" % (REPO, HERE, b["script"])}
             json.dump(doc, open(outp, "w"), indent=1, default=str)
             violations.append(("bounded:" + b["unit"], os.path.relpath(outp, HERE), True))
+
+    # recorded findings: each is re-played; it is reported (and only reported) while it still reproduces
+    for kf in known:
+        if not kf.get("tag"):
+            continue
+        outp = os.path.join(HERE, "replays", "%s-known-%s.json" % (prop, kf["id"]))
+        try:
+            subprocess.run(["/venv/bin/python", os.path.join(HERE, "replay", kf["family"]), "--search", "--only", kf["tag"], "--out", outp],
+                           env=dict(os.environ, PYTHONPATH=REPO), cwd=os.path.join(HERE, "replay"), capture_output=True, text=True, timeout=300)
+            if json.load(open(outp)).get("found"):
+                print("KNOWN-FINDING: property=%s %s: %s (input: %s)" % (prop, kf["id"], kf["what"], kf["input"]))
+        except Exception:
+            pass
 
     for k, gname in known_hits:
         print("KNOWN-FINDING: property=%s %s [%s]" % (prop, k["what"], gname))
